@@ -77,8 +77,9 @@ class Bench:
     def emit(self, ev, last, dw):
         self.lines.append("cl.ev " + ev)
         # (a close whose stop hook already started the next attempt: the state in between is not observable)
-        self.obs.append("SKIP" if (ev == "close" and self.deferred) else f"conn={self.phase()} last={last} dw={dw}")
-        if ev == "close" and self.deferred:
+        closing = ev in ("close", "disconnect")
+        self.obs.append("SKIP" if (closing and self.deferred) else f"conn={self.phase()} last={last} dw={dw}")
+        if closing and self.deferred:
             d, self.deferred = self.deferred, []
             for e2, l2 in d:
                 self.emit(e2, l2, 0)
@@ -172,6 +173,8 @@ class Bench:
             if t.done() and c.connection_state is not ac.CONNECTION_STATE_CLOSED:
                 self.bad.append(("disconnect-no-effect", f"disconnect(force=True) called in phase {ph} returned and left the "
                                                          f"connection in state {STATE[c.connection_state]}"))
+            self.emit("disconnect", self.last, 0)    # the model's own event: whatever was attached is closed now
+            return
         elif kind == "disconnect":
             self._disc = tasks._PyTask(self.client.disconnect(), loop=self.loop, name="cdisc", eager_start=True)
             self._disc_conn, self._disc_phase = c, self.phase()
